@@ -7,11 +7,11 @@ BINA = os.path.join(simlib.BUILD, 'bin', 'iosimA')
 BINB = os.path.join(simlib.BUILD, 'bin', 'iosimB')
 
 TIERS = {
-    ('C11', 'quick'): dict(seeded=24000, trunc='trunc', chunk=400),
+    ('C11', 'quick'): dict(seeded=100000, trunc='trunc', chunk=1000),
     ('C11', 'thorough'): dict(seeded=2000000, trunc='truncall', chunk=2000),
-    ('C12', 'quick'): dict(seeded=12000, chunk=200),
+    ('C12', 'quick'): dict(seeded=60000, chunk=500),
     ('C12', 'thorough'): dict(seeded=800000, chunk=1000),
-    ('C13', 'quick'): dict(seeded=8000, chunk=200),
+    ('C13', 'quick'): dict(seeded=60000, chunk=500),
     ('C13', 'thorough'): dict(seeded=400000, chunk=1000),
 }
 MODE = {'C11': 'c11', 'C12': 'c12', 'C13': 'c13'}
@@ -50,7 +50,7 @@ def gen_plan(mode, seed, i):
 def config_of(plan):
     if plan is None:
         return 'unknown'
-    return '%s/%s/%s/%s' % (plan.get('fmt'), plan.get('variant'), plan.get('entry', plan.get('mode')), plan.get('dev', '-'))
+    return '%s/%s/%s/%s' % (plan.get('fmt'), plan.get('variant'), plan.get('entry', plan.get('mode')), plan.get('dev') if isinstance(plan.get('dev'), str) else '-')
 
 
 def run_ab(plan, timeout=60):
